@@ -132,6 +132,12 @@ def config_cases(tier):
             for tf in (3e-6, 6e-5):
                 out.append({'system': system, 'temp': 'iso_hot', 'it': it, 'preload': True, 'tf': tf, 'split': 3, 'constraints': {'dtScale': 0.05},
                             'max_steps': 8000})
+    # (2f) concentrated alloy (x0 just below the precipitate composition) with unequal molar volumes: the transformation runs to
+    #      completion and the RK4 overshoot makes the documented cap of the volume fraction at 1 act (1 353 steps of the 0.8 case)
+    for vm in (0.8, 1.0):          # (a precipitate molar volume above x_beta / x0 puts the alloy beyond the pole of the growth law)
+        for it in ('euler', 'rk4'):
+            out.append({'system': 'bin', 'x0': 0.24, 'vm': vm, 'it': it, 'temp': 'iso', 'tf': 4.0, 'constraints': {'dtScale': 0.05},
+                        'max_steps': 20000})
     # (3) recording with a fixed grid, all site types, compositions at the edge
     for system in ('bin', 'tern'):
         for site in ['bulk', 'dislocations', 'grain boundaries', 'grain edges', 'grain corners']:
